@@ -145,6 +145,26 @@ void h_canonize(void)
 }
 #endif
 
+/* ---------- Range<int64_t,uint64_t>::intersection / size (complete) ---------- */
+#ifdef T_RANGE64
+void w_isect64(int64_t a, int64_t b, int64_t c, int64_t d, int64_t *s, int64_t *e);
+uint64_t w_size64(int64_t a, int64_t b);
+void h_range64(void)
+{
+    int64_t a, b, c, d, s, e;
+    w_isect64(a, b, c, d, &s, &e);
+    ENS(s == (a > c ? a : c) && e == (b < d ? b : d), "intersection == [max(starts), min(ends))");
+    int64_t p, q;
+    /* size() computes end - start in int64_t: precondition = the width fits (canonize only measures sub-ranges of [0, clen)) */
+    __CPROVER_assume((wide)q - (wide)p <= (wide)INT64_MAX);
+    uint64_t z = w_size64(p, q);
+    ENS((wide)z == (q > p ? (wide)q - (wide)p : (wide)0), "size == end - start for start < end, else 0 (64-bit, no truncation)");
+    RCH(z == (uint64_t)INT64_MAX, "widest range [0, INT64_MAX)");
+    RCH(z == 0 && q < p, "reversed range is empty");
+    RCH(s > e, "disjoint operands give a reversed (empty) intersection");
+}
+#endif
+
 /* ---------- HttpHdrRangeSpec::mergeWith: MERGING_BREAKS_NOTHING is defined nowhere => no merging ---------- */
 #ifdef T_MERGE
 void h_merge(void)
